@@ -413,6 +413,13 @@ Redeliver(e, k) ==
     /\ act' = [name |-> "Redeliver", k |-> k, tx |-> e.tx, result |-> "ante", failIdx |-> 0, code |-> "sdk/32", offs |-> <<>>]
     /\ UNCHANGED <<height, phase, custom, bank, grants>>
 
+\* Mempool and gas-estimation traffic: CheckTx, ReCheckTx and Simulate run the ante handler (Simulate: the message handlers too) on a branch of
+\* the CHECK state.  Nothing of it is ever committed, and nothing of it may influence what later deliveries do.
+Noise(kind, tx) ==
+    /\ phase = "in" /\ kind \in {"check", "recheck", "simulate"}
+    /\ act' = [name |-> "Noise", kind |-> kind, tx |-> tx]
+    /\ UNCHANGED <<height, phase, custom, bank, grants>>
+
 \* A route to the burn address that does not pass through a transaction of the block in which the coins arrive: a governance proposal
 \* whose message is distribution.MsgCommunityPoolSpend{recipient: burn address}.  GovSchedule(n) abstracts "an (untracked) account funds the
 \* community pool with n umed, submits the proposal with its deposit, and the bonded stake votes yes" - three transactions of the current
